@@ -717,10 +717,12 @@ def _replace(uniques: list[tuple[set[AST], AST]], var: AST) -> AST:
     return var
 
 
-def replace_simple_assignments_aggregate(lit: AST) -> AST:
+def replace_simple_assignments_aggregate(lit: AST, global_vars: Optional[set[AST]] = None) -> AST:
     """replace variable equalities with their inlined versions
-    e.g. foo(X), bar(Y), X=Y becomes foo(X), bar(X) inside an aggregate"""
+    e.g. foo(X), bar(Y), X=Y becomes foo(X), bar(X) inside an aggregate
+    variables in global_vars are visible outside of the aggregate and are not replaced by local ones"""
     assert lit.atom.ast_type == ASTType.BodyAggregate
+    global_vars = set() if global_vars is None else global_vars
     new_elements: list[AST] = []
     for elem in lit.atom.elements:
         eqs = _get_simple_equalities(elem.condition)
@@ -729,7 +731,8 @@ def replace_simple_assignments_aggregate(lit: AST) -> AST:
             graph.add_edge(eq.atom.term, eq.atom.guards[0].term)
         uniques: list[tuple[set[AST], AST]] = []
         for cc in nx.connected_components(graph):
-            uniques.append((cc, sorted(cc)[0]))
+            outside = sorted(cc & global_vars)
+            uniques.append((cc, outside[0] if outside else sorted(cc)[0]))
         new_condition = [c for c in elem.condition if c not in eqs]
         new_elem = elem.update(condition=new_condition)
         new_elements.append(transform_ast(new_elem, "Variable", partial(_replace, uniques)))
@@ -754,11 +757,12 @@ def replace_simple_assignments(stm: AST) -> AST:
     graph = nx.Graph()
     aux_body: list[AST] = []
     eqs = _get_simple_equalities(new_body)
+    global_vars = global_vars_inside_body(new_body)
     for lit in new_body:
         if lit in eqs:
             continue
         if lit.ast_type == ASTType.Literal and lit.atom.ast_type == ASTType.BodyAggregate:
-            aux_body.append(replace_simple_assignments_aggregate(lit))
+            aux_body.append(replace_simple_assignments_aggregate(lit, global_vars))
         else:
             aux_body.append(lit)
 
